@@ -3,6 +3,8 @@ package hx
 import (
 	"context"
 	"fmt"
+	"io"
+	"log"
 	"net"
 	"runtime"
 	"strings"
@@ -16,6 +18,7 @@ import (
 	vy "git.sr.ht/~adrian-blx/psa-dhcp/lib/client/verify"
 	"git.sr.ht/~adrian-blx/psa-dhcp/lib/dhcpmsg"
 	"git.sr.ht/~adrian-blx/psa-dhcp/lib/layer"
+	"git.sr.ht/~adrian-blx/psa-dhcp/lib/libif"
 	"git.sr.ht/~adrian-blx/psa-dhcp/lib/rsocks"
 )
 
@@ -67,6 +70,16 @@ func TestResFaults(t *testing.T) {
 			}
 		}
 	}
+	// the whole client automaton against a scripted server: cancelled while discovering (silent server), while bound,
+	// and inside the 30 s back-off that follows an address conflict or a failed interface configuration
+	for _, a := range []string{"none", "pass", "foreign", "ifacefail"} {
+		for _, at := range []time.Duration{2 * time.Second, 7 * time.Second, 20 * time.Second, 29 * time.Second, 45 * time.Second, 100 * time.Second} {
+			cases = append(cases, resCase{fn: "client", cancelAt: at, answer: a})
+		}
+		for n := 1; n <= 4; n++ {
+			cases = append(cases, resCase{fn: "client", failOpen: n, cancelAt: 50 * time.Second, answer: a})
+		}
+	}
 	if Thorough() { // pairs: a fault together with a cancellation instant
 		for _, fn := range []string{"ping", "sendmsg", "catch", "server"} {
 			for n := 1; n <= 4; n++ {
@@ -93,8 +106,34 @@ func runResCase(t *testing.T, s *Stream, c resCase) {
 	seg := rsocks.Seg(iface)
 	seg.FailOpenAt, seg.FailWriteAt, seg.FailReadAt = c.failOpen, c.failWr, c.failRd
 	target := net.IPv4(10, 0, 0, 9)
+	if c.fn == "client" {
+		target = net.IPv4(10, 0, 0, 77)
+		if c.answer == "ifacefail" {
+			libif.PlanSetIface(iface, fmt.Errorf("injected"))
+		} else {
+			libif.PlanSetIface(iface)
+		}
+	}
 	seg.OnSend = func(f rsocks.Frame) {
-		if f.Proto != 0x0806 || c.answer == "none" {
+		if c.fn == "client" && f.Proto == 0x0800 && c.answer != "none" { // scripted server: OFFER for DISCOVER, ACK for REQUEST
+			if ip, err := layer.DecodeIPv4(f.Payload); err == nil {
+				if u, err := layer.DecodeUDP(ip.Data); err == nil && u.DstPort == 67 {
+					if m, err := dhcpmsg.Decode(u.Data); err == nil {
+						mt := dhcpmsg.DecodeOptions(m.Options).MessageType
+						sp := replySpec{proto: 0x11, dport: 68, chaddr: iface.HardwareAddr, xid: m.Xid, mtype: 2, yiaddr: net.IPv4(10, 0, 0, 77), sid: []byte{10, 0, 0, 1}, routers: []byte{10, 0, 0, 1}, lease: []byte{0, 0, 1, 0}, op: 2}
+						if mt == 3 {
+							sp.mtype = 5
+						}
+						go func() {
+							time.Sleep(10 * time.Millisecond)
+							seg.Inject(0x0800, sp.frame())
+						}()
+					}
+				}
+			}
+			return
+		}
+		if f.Proto != 0x0806 || c.answer == "none" || (c.fn == "client" && c.answer != "foreign") {
 			return
 		}
 		sip := target
@@ -157,6 +196,15 @@ func runResCase(t *testing.T, s *Stream, c resCase) {
 				seg.Inject(0x0800, sp.frame())
 				seg.Inject(0x0800, []byte{1, 2, 3})
 			}
+		}()
+	case "client":
+		longRunning = true
+		nop := func(context.Context, *libif.Ifconfig) {}
+		dx := dclient.New(ctx, iface, log.New(io.Discard, "", 0), nop, nop)
+		go func() {
+			dx.Run()
+			returnedAt = time.Since(t0)
+			done <- "true"
 		}()
 	case "server":
 		longRunning = true
